@@ -672,6 +672,12 @@ pub fn replay(vj: &Value, is09: bool) -> Option<Viol> {
                 _ => Some(c09_viol("missing_middle_chunk".into(), format!("{:?}", res), &ci, &img, mu.clone())),
             };
         }
+        if mu["mode"].as_str() == Some("altered_after_open") {
+            let mut viols = vec![];
+            let mut r = Rng::new(1);
+            c09_after_open(&ci, &mut r, &mut stats, &mut viols, util::now_s() + 60.0);
+            return viols.into_iter().next();
+        }
         let chunk = mu["chunk"].as_u64()?;
         let off = mu["offset"].as_u64()? as usize;
         let fidx = orig.iter().position(|f| f.0 == chunk)?;
